@@ -48,7 +48,7 @@ Definition octx_eqb (a b : octx) : bool :=
   bytes_eqb (o_ts a) (o_ts b) && Bool.eqb (o_remote a) (o_remote b).
 
 Definition code (d : decision) : N :=
-  match d with Drop => D_DROP | RecordOnly => D_RECORD | RecordAndSample => D_SAMPLE end.
+  match d with Drop => D_DROP | RecordOnly => D_RECORD | RecordAndSample => D_SAMPLE | DOther k => 3 + k end.
 
 Definition gen_of (gens : list (bytes * bytes)) (k : nat) : bytes * bytes := nth k gens ([], []).
 
@@ -148,7 +148,7 @@ Definition start_spec (s : sampler) (obs : list span_obs) (gens : list (bytes * 
           | SAlways => sampled_flag (o_flags c) && so_recording so
           | SNever => negb (sampled_flag (o_flags c)) && negb (so_recording so)
           | SCustom d _ => Bool.eqb (sampled_flag (o_flags c)) (code d =? D_SAMPLE) &&
-                           Bool.eqb (so_recording so) (negb (code d =? D_DROP))
+                           (if code d <=? D_SAMPLE then Bool.eqb (so_recording so) (negb (code d =? D_DROP)) else true)
           | _ => true
           end
       | _ => true
